@@ -133,6 +133,19 @@ def explore(ctx):
                 kind="failing-input", stream="election-explorer", ops=[l], model=[o],
                 explanation="schedule found in the election model regenerated from cluster_leader.go: " + o))
             ctx.violations.append((p, True))
+    # every statement which writes the node's term, read off the regenerated statement list
+    tw = core.driver_lines(["elect.termwrites"])[0]
+    res.append({"op": "elect.termwrites", "model": tw})
+    if not tw.startswith("none") and tw != "bad-op":
+        p = runner.write_replay(ctx, f"election-{len(ctx.violations)}", dict(
+            kind="failing-input", stream="election-term-writes", ops=["elect.termwrites"], model=[tw],
+            explanation="\"a node's term never decreases\", \"at most one vote per term\": the election code regenerated from cluster_leader.go / cluster.go "
+                        "writes the node's term in a statement which is none of the three the proved model has (the election's own increment, the grant "
+                        "of a vote under `c.fo.term < vreq.req.Term`, the adoption of a newer leader's term under `health.Term > c.fo.term`): "
+                        + tw + " - the run of the function which reaches that statement (for a statement under `elect/`: a node whose vote "
+                        "timeout fires and whose election ends on that branch) leaves the node with a term the invariants do not cover; when the "
+                        "statement lowers the term, the node then grants a second vote in a term it has already voted in"))
+        ctx.violations.append((p, True))
     ctx.cov.setdefault("extra", {})["election_explorer"] = res
 
 
@@ -150,7 +163,7 @@ PROP = dict(
                "sorted replica list (digest collisions ignored).",
     technique="Lean 4 proof (sorted-permutation uniqueness, induction over find/filter) + differential correspondence; T2 regenerated guards for the election",
     modules=["TinodeVerif.Props.C17"],
-    theorems=[T + n for n in ["ring_perm_invariant", "get_perm_invariant", "ring_total", "ring_remove_minimal", "ring_add_minimal", "shape_ok", "sig_gate",
+    theorems=[T + n for n in ["ring_perm_invariant", "get_perm_invariant", "ring_total", "ring_remove_minimal", "ring_add_minimal", "shape_ok", "term_writes_guarded", "sig_gate",
                               "one_vote_per_term", "majority_needed", "election_safety", "term_monotone", "health_step",
                               "partitioned_leader_stops"]],
     streams=[dict(name="ring", pkg="ringhash", gen=gen_ring, classify=classify, post=post_ring),
